@@ -204,9 +204,17 @@ def run_case(case, ctx):
     if case['seed'] % 2 == 0:
         rr = random.Random(case['seed'] + 16)
         ks = rr.sample(range(d), min(d, 2))
+        how = ['set_core', 'core_write'][(case['seed'] // 2) % 2]      # replace the cores (new tensor objects) or update them in place (same tensor objects, as an optimiser step does)
+        ctx.count('base_point_moved_by:' + how)
         for k in ks:
             newcore = gens.values(list(x.cores[k].shape), dt, 'gauss', g)
-            r = ctx.lib('set_core', lambda t, k=k, c=newcore: t.set_core(k, c), x, inplace=(x,))
+            if how == 'set_core':
+                r = ctx.lib('set_core', lambda t, k=k, c=newcore: t.set_core(k, c), x, inplace=(x,))
+            else:
+                def write(t, k=k, c=newcore):
+                    with torch.no_grad():
+                        t.cores[k].mul_(0.5).add_(c)
+                r = ctx.lib('core_write(in place)', write, x, inplace=(x,), resnap_all=True)
             if isinstance(r, Raised):
                 return
         dx2 = dn.D(x)
@@ -222,7 +230,7 @@ def run_case(case, ctx):
         Pz2 = proj('z (after the base point moved)', x, z)
         if Pz2 is not None:
             ref2 = (Q2 @ (Q2.T @ dz.reshape(-1))).reshape(dz.shape)
-            near(dn.D(Pz2), ref2, nz, 'stale-base-point(after set_core)', 'D(P_x(z)) vs QQ^T z at the moved point')
+            near(dn.D(Pz2), ref2, nz, 'stale-base-point(after %s)' % how, 'D(P_x(z)) vs QQ^T z at the moved point')
         gr2 = ctx.lib('riemannian_gradient', lambda p: tt.manifold.riemannian_gradient(p, f), x)
         if isinstance(gr2, tt.TT):
             Tl2 = dx2.clone().requires_grad_(True)
@@ -230,4 +238,4 @@ def run_case(case, ctx):
             ref2 = (Q2 @ (Q2.T @ eg2.reshape(-1))).reshape(eg2.shape)
             ne2 = max(dn.fro(eg2), 1e-300)
             if not dn.fro(dn.D(gr2) - ref2) <= 10 * TOL * ne2:
-                ctx.viol(gkey + '/clause=stale-base-point(after set_core)', '%s: gradient at the moved point differs from the projected Euclidean gradient: %.3e (||egrad||=%.3e)' % (what, dn.fro(dn.D(gr2) - ref2), ne2))
+                ctx.viol(gkey + '/clause=stale-base-point(after %s)' % how, '%s: gradient at the moved point differs from the projected Euclidean gradient: %.3e (||egrad||=%.3e)' % (what, dn.fro(dn.D(gr2) - ref2), ne2))
